@@ -46,6 +46,7 @@ func injectFailures(r *rng.R, s *spec.Spec, e *Env, timeoutPct int) map[string]s
 				kinds[t.Label()] = "exit-nonzero"
 			} else {
 				t.OmitIf = "markers/omit_" + t.MID()
+				t.Dangle = r.Chance(1, 3)
 				if outs := t.AllOuts(); len(outs) >= 2 && r.Chance(1, 2) {
 					// only one of the declared outputs goes missing
 					t.Omit = outs[r.Intn(len(outs))].Path
